@@ -10,7 +10,8 @@ Open Scope string_scope.
 Open Scope list_scope.
 
 (** ** Values *)
-Inductive err := ZeroDiv | IndexErr | KeyErr | AttrErr | TypeErr | NameErr | ValueErr | Unsupported.
+Inductive err := ZeroDiv | IndexErr | KeyErr | AttrErr | TypeErr | NameErr | ValueErr | Unsupported
+                 | Speculative.   (* raised while the re-evaluator visits a part of a comprehension on its own *)
 
 Inductive val :=
 | VNone
@@ -157,6 +158,10 @@ Definition lift {V A} (r : res A) : GM V A := fun s => match r with Ok a => Ok (
 Definition record {V} (i : nat) (v : val) : GM V unit := fun s => Ok (tt, (fst s, snd s ++ [(i, v)])).
 Definition get_env {V} : GM V (genv V) := fun s => Ok (fst s, s).
 Definition put_env {V} (m : genv V) : GM V unit := fun s => Ok (tt, (m, snd s)).
+(** the visits of the parts of a comprehension on their own (NOTE ABOUT PLACEHOLDERS AND RE-COMPUTATION): an
+    exception there is marked, whatever it was *)
+Definition speculative {V A} (m : GM V A) : GM V A :=
+  fun s => match m s with Ok r => Ok r | Err _ => Err Speculative end.
 Notation "x <- m ;; k" := (bindM m (fun x => k)) (at level 61, m at next level, right associativity).
 Notation "m ;;; k" := (bindM m (fun _ => k)) (at level 61, right associativity).
 
@@ -553,7 +558,7 @@ Fixpoint rc (i : nat) (e : expr) {struct e} : R rval :=
   | EComp k elt elt2 gs =>
       m <- get_env ;;
       mark_targets gs ;;;
-      rc (S i) elt ;;; rc (S i + size elt) elt2 ;;; rc_gens (S i + size elt + size elt2) gs ;;;
+      speculative (rc (S i) elt ;;; rc (S i + size elt) elt2 ;;; rc_gens (S i + size elt + size elt2) gs) ;;;
       put_env m ;;;
       match down m with
       | None => ph        (* a comprehension nested in a comprehension: not re-computed *)
@@ -639,8 +644,7 @@ with rc_dpairs (i : nat) (ds : dpairs) {struct ds} : R (list (rval * rval)) :=
   match ds with
   | DNil => ret []
   | DCons k v r =>
-      (* [d[visit(key)] = visit(value)]: Python evaluates the right-hand side first *)
-      vx <- rc (i + size k) v ;; kx <- rc i k ;; rest <- rc_dpairs (i + size k + size v) r ;; ret ((kx, vx) :: rest)
+      kx <- rc i k ;; vx <- rc (i + size k) v ;; rest <- rc_dpairs (i + size k + size v) r ;; ret ((kx, vx) :: rest)
   end
 with rc_gens (i : nat) (gs : gens) {struct gs} : R unit :=
   match gs with
